@@ -268,7 +268,10 @@ def _check_default_values(root, stats):
         return            # not constructible without arguments / not encodable: nothing to compare with
     if not isinstance(encoded, dict):
         return
-    props = build_json_schema(root, all_refs=False).to_dict().get("properties", {})
+    try:
+        props = build_json_schema(root, all_refs=False).to_dict().get("properties", {})
+    except Exception:
+        return            # (a document that only exists because the library swallowed its own RecursionError: known findings)
     aliases = dict(getattr(cfg, "aliases", {}) or {})
     for f in dataclasses.fields(root):
         if not f.init or f.default is dataclasses.MISSING or f.name not in encoded:
